@@ -1,0 +1,31 @@
+//go:build verif
+
+package snowflake
+
+import "time"
+
+// VerifSetNow replaces the wall clock read by HardNode.Generate and returns a
+// function restoring the previous one.
+func VerifSetNow(fn func() time.Time) (restore func()) {
+	var old = _HookNow
+	_HookNow = fn
+	return func() { _HookNow = old }
+}
+
+// VerifSetConfig sets the global layout (epoch in ms, node bits, node position)
+// and returns a function restoring the previous one.
+func VerifSetConfig(epoch int64, nodeBits uint8, nodeAtLowest bool) (restore func()) {
+	var e, b, l = _epoch, _nodeBits, _nodeAtLowest
+	_epoch, _nodeBits, _nodeAtLowest = epoch, nodeBits, nodeAtLowest
+	return func() { _epoch, _nodeBits, _nodeAtLowest = e, b, l }
+}
+
+// VerifNodeState (time, step) of a hard node
+func VerifNodeState(n Node) (timeF, step int64, ok bool) {
+	if h, is := n.(*HardNode); is {
+		h.mu.Lock()
+		defer h.mu.Unlock()
+		return h.time, h.step, true
+	}
+	return 0, 0, false
+}
